@@ -97,19 +97,16 @@ func SetConfig(ctx context.Context, room jid.JID, form *form.Data, s *xmpp.Sessi
 
 // SetConfigIQ is like SetConfig except that it lets you customize the IQ.
 // Changing the type of the IQ has no effect.
+// If the room refuses the change the stanza.Error of its reply is returned.
 func SetConfigIQ(ctx context.Context, iq stanza.IQ, form *form.Data, s *xmpp.Session) error {
 	if iq.Type != stanza.SetIQ {
 		iq.Type = stanza.SetIQ
 	}
 	submission, _ := form.Submit()
-	r, err := s.SendIQElement(ctx, xmlstream.Wrap(
+	return s.UnmarshalIQElement(ctx, xmlstream.Wrap(
 		submission,
 		xml.StartElement{Name: xml.Name{Space: NSOwner, Local: "query"}},
-	), iq)
-	if err != nil {
-		return err
-	}
-	return r.Close()
+	), iq, nil)
 }
 
 // HandleClient returns an option that registers the handler for use with a
